@@ -56,6 +56,12 @@ func only(p *Profile, kinds map[string]int) *Profile {
 // registration- and schedule-centred mixes of the properties that own those entities, so that
 // the races those mixes reach are also judged against the sequential specification.
 func ProfileForRun(prop string, run int) *Profile {
+	if prop == "C18" {
+		// kernel-engine phase of the C18 check: the dispatch-centred mix
+		p := ProfileFor("C19")
+		p.Name = "C18/dispatch"
+		return p
+	}
 	if prop == "C02" {
 		switch run % 8 {
 		case 1:
@@ -154,6 +160,7 @@ func ProfileFor(prop string) *Profile {
 		p.PHandoff = 0.4
 	case "C09":
 		only(p, map[string]int{"AcquireLock": 40, "ReleaseLock": 25, "HeartbeatLocks": 20})
+		p.PCrashRun = 0.3
 		p.PBoundary = 0.6
 		p.Ttls = []int64{0, 1, 10, 1000, 2000, 5000}
 	case "C10":
